@@ -122,6 +122,14 @@ func leakProgram(c *LeakCase) (facts []biscuit.Fact, rules []biscuit.Rule, final
 	switch c.Exit {
 	case "invalid":
 		head = P("q", biscuit.Variable("missing"))
+	case "invalid+err":
+		// first combination passes the expression and trips the invalid head; a later one makes the expression fail
+		head = P("q", biscuit.Variable("missing"))
+		facts = append(facts[:1:1], biscuit.Fact{Predicate: P("p", biscuit.String("not an integer"))})
+		for i := 2; i < m; i++ {
+			facts = append(facts, biscuit.Fact{Predicate: P("p", biscuit.Integer(int64(i)))})
+		}
+		exprs = []biscuit.Expression{{biscuit.Value{Term: x}, biscuit.Value{Term: biscuit.Integer(1000000)}, biscuit.BinaryLessThan}}
 	case "exprerr":
 		exprs = []biscuit.Expression{{biscuit.Value{Term: biscuit.Integer(1)}, biscuit.Value{Term: biscuit.Integer(0)}, biscuit.BinaryDiv,
 			biscuit.Value{Term: biscuit.Integer(1)}, biscuit.BinaryEqual}}
